@@ -119,7 +119,9 @@ def run(ctx):
         tsym = tables.display_symbols(prog, tables.TOKEN)
         psym = tables.display_symbols(prog, tables.PARTIAL)
         chars = tables.char_table(prog)
-        t2o, f_tree, place, dsp = tables.token_to_operator(prog)
+        sem = tables.token_semantics(prog)
+        f_tree = sem['fn']
+        t2o = {tv: dict(operators=sorted({o[3] for o in sem['first'][tv]} | {o[3] for o in sem['after_value'][tv]})) for tv in sem['first']}
     except tables.TableError as e:
         ctx.unrecognised('T4', 'tables', 'not-tabular', str(e))
         return
@@ -168,61 +170,25 @@ def run(ctx):
         ctx.check(tp['is_assignment'][tv] is want, 'T5', 'is_assignment:' + tv, 'assign-set', 'is_assignment(%s) is %s' % (tv, want))
 
     # T6 minus split: Sub on the true edge, Neg on the false edge of last_token_is_rightsided_value
-    t6(ctx, prog, f_tree, t2o)
+    t6(ctx, prog, f_tree, sem, tp)
     t7(ctx, prog, T)
 
 
-def t6(ctx, prog, f, t2o):
-    from mirlib import bool_switch, is_local, op_place, callee_matches, const_value
-    blocks = t2o['Minus']['blocks']
-    sw = None
-    for b in blocks:
-        bs = bool_switch(f, b)
-        if bs is not None:
-            sw = (b,) + bs
-    if sw is None:
-        ctx.unrecognised('T6', 'Minus', 'no-branch', 'Minus arm has no boolean branch selecting Sub/Neg', span=f.span)
-        return
-    b, pl, ffalse, ftrue = sw
-    flag = pl['l'] if is_local(pl) else None
-    # single-def copies
-    src = flag
-    sd = f.single_def(flag) if flag is not None else None
-    if sd is not None and sd[1] != 'term' and sd[2]['k'] == 'use' and op_place(sd[2]['op']) is not None:
-        src = op_place(sd[2]['op'])['l']
-    name = f.local_name(src)
-    def built(start):
-        out = set()
-        for x in f.reachable_from(start, avoid=[]):
-            if x in blocks:
-                for st in f.stmts(x):
-                    if st['k'] == 'assign' and st['rv']['k'] == 'aggregate' and st['rv'].get('agg') == 'adt' and st['rv']['adt'].endswith('operator::Operator'):
-                        out.add(st['rv']['vname'])
-        return out
-    # restrict to blocks of the arm dominated by each edge
-    tb = {x for x in blocks if f.edge_dominates((b, ftrue), x)}
-    fb = {x for x in blocks if f.edge_dominates((b, ffalse), x)}
-    def built_in(bs):
-        out = set()
-        for x in bs:
-            for st in f.stmts(x):
-                if st['k'] == 'assign' and st['rv']['k'] == 'aggregate' and st['rv'].get('agg') == 'adt' and st['rv']['adt'].endswith('operator::Operator'):
-                    out.add(st['rv']['vname'])
-        return out
-    ctx.check(built_in(tb) == {'Sub'}, 'T6', 'Minus:true-edge', 'sub-edge', 'after a right-sided value `-` is the binary Sub (found %s)' % sorted(built_in(tb)), span=f.term(b)['span'])
-    ctx.check(built_in(fb) == {'Neg'}, 'T6', 'Minus:false-edge', 'neg-edge', 'otherwise `-` is the prefix Neg (found %s)' % sorted(built_in(fb)), span=f.term(b)['span'])
-    # definitions of the flag: const false, and token.is_rightsided_value()
-    from mirlib import def_roots
-    defs = def_roots(f, src)
-    kinds = set()
-    for (db, idx, rv) in defs:
-        if idx == 'term':
-            kinds.add('is_rightsided_value' if callee_matches(rv, ['Token::<NumericTypes>::is_rightsided_value']) else 'other-call')
-        elif rv['k'] == 'use' and const_value(rv['op']) is False:
-            kinds.add('const-false')
-        else:
-            kinds.add('other')
-    ctx.check(kinds == {'const-false', 'is_rightsided_value'}, 'T6', 'flag-definitions', 'flag-defs', 'the flag `%s` is defined only as `false` and `token.is_rightsided_value()` (found %s)' % (name, sorted(kinds)), span=f.span)
+def t6(ctx, prog, f, sem, tp):
+    """minus split, decided on what the builder inserts for `-` after each token kind (tables.token_semantics): the binary Sub exactly
+    after a right-sided value (literal, identifier, `)`), the prefix Neg otherwise and at the start"""
+    first = {o[3] for o in sem['first']['Minus']}
+    ctx.check(first == {'Neg'}, 'T6', 'Minus:false-edge', 'neg-edge', 'at the start `-` is the prefix Neg (found %s)' % sorted(first), span=f.span)
+    bad_sub, bad_neg = [], []
+    for K, got in sem['minus_after'].items():
+        if tp['is_rightsided_value'][K]:
+            if got != {'Sub'}:
+                bad_sub.append('%s: %s' % (K, sorted(got)))
+        elif got != {'Neg'}:
+            bad_neg.append('%s: %s' % (K, sorted(got)))
+    ctx.check(not bad_sub, 'T6', 'Minus:true-edge', 'sub-edge', 'after a right-sided value `-` is the binary Sub (deviations %s)' % bad_sub[:4], span=f.span)
+    ctx.check(not bad_neg, 'T6', 'flag-definitions', 'flag-defs', 'after any other token `-` is the prefix Neg (deviations %s)' % bad_neg[:4], span=f.span)
+    ctx.floor('T6', 'minus_contexts', len(sem['minus_after']), 33)
 
 
 # ----------------------------------------------------------------------------- T7: the insertion decision procedure
